@@ -176,6 +176,10 @@ Section Pull.
   Variable fx : bool.             (* verify before rename *)
   Variable k : consts.
 
+  (** (Since fix f3cb3ce5d the blobDownload is published to other requests with its channels and cancel function
+      already created, Wait is gated on [prepared], and a failing Prepare hands its error to the requests that were
+      already waiting.  For one request this is the same function; what a second, concurrent request gets is compared by
+      [Corr.chk_par]: the result of the download it joined.) *)
   Definition download_blob (st : store) (d : digest) (e : benv) : store * dres * dtrace :=
     match lookup N.eqb d (s_blobs st) with
     | Some _ => (st, DHit, no_trace)                       (* os.Stat succeeds: cache hit, nothing is read *)
@@ -269,15 +273,26 @@ Section Pull.
     end.
 End Pull.
 
-(** ** the HTTP layer: makeRequest (redirect policy), makeRequestWithRetry (401 / token / one retry), and the
-    resolution of the direct URL in blobDownload.run.  A response is reduced to what the code looks at. *)
+(** ** the HTTP layer: makeRequest (redirect policy), makeRequestWithRetry (401 -> challenge -> token -> one replay),
+    getAuthorizationToken (server/auth.go) and the resolution of the direct URL in blobDownload.run.
+    A response is reduced to what the code looks at; an element of the list also records what was observed about the
+    *request* it answered (the bearer token it carried, the token exchange that followed it), so that running the model
+    on a log also says whether the requests were the ones the model makes ([conf]). *)
+Record tokobs := mkTok { to_service : str;            (* query parameter service of the token request *)
+                         to_scope : str;              (* its scope parameters, joined by spaces *)
+                         to_token : option str }.     (* Some t: status < 400 and the body decodes to {"token": t};
+                                                         None: transport error, status >= 400, or undecodable body *)
 Record hresp := mkH { h_fail : bool;                (* transport error: no response *)
                       h_status : Z;
                       h_auth : str;                 (* the WWW-Authenticate header *)
-                      h_tok : bool;                 (* getAuthorizationToken for this challenge succeeded *)
+                      h_req_tok : str;              (* observed: the bearer token on the request (empty: none) *)
+                      h_tokreq : option tokobs;     (* observed: the token request that followed this response *)
                       h_redir : option bool;        (* Location header present: Some (same host as the original request) *)
                       h_cl : Z;                     (* Content-Length *)
                       h_man : option manifest }.    (* the body decodes as a manifest *)
+(** where a usable token service lives (a realm that is anything else cannot be contacted in the runs: the request
+    fails without reaching any server), and whether $HOME/.ollama/id_ed25519 exists (auth.Sign fails otherwise) *)
+Record authcfg := mkAuth { a_tokurl : str; a_haskey : bool }.
 
 Definition is_redirect (s : Z) : bool := (s =? 301) || (s =? 302) || (s =? 303) || (s =? 307) || (s =? 308).
 
@@ -305,39 +320,55 @@ Fixpoint do_request (closure : bool) (via : nat) (rs : list hresp) : option hres
 
 Inductive rout := ROk (r : hresp) | RErr | RPanic.
 
-(** makeRequestWithRetry: [for range 2]; [g] = the bounds guard in getValue *)
-Fixpoint mrwr (g closure : bool) (fuel : nat) (rs : list hresp) : rout * list hresp :=
+(** getAuthorizationToken: challenge.URL() (service, every space-separated scope), auth.Sign, GET, status, JSON.
+    Returns the new token (None: error) and whether the observed token exchange is the one the code makes. *)
+Definition get_token (ac : authcfg) (c : challenge) (obs : option tokobs) : option str * bool :=
+  if a_haskey ac && eqb_str (c_realm c) (a_tokurl ac) then
+    match obs with
+    | None => (None, false)                                   (* the code asks the token service here *)
+    | Some t => (to_token t, eqb_str (to_service t) (c_service c) && eqb_str (to_scope t) (c_scope c))
+    end
+  else (None, match obs with None => true | Some _ => false end).   (* no key, or a realm that is not the token service *)
+
+(** makeRequestWithRetry: [for range 2]; [g] = the bounds guard in getValue; [tok] = regOpts.Token.
+    Result, regOpts.Token afterwards, the unconsumed responses, conformance of the observed requests. *)
+Fixpoint mrwr (g closure : bool) (ac : authcfg) (fuel : nat) (tok : str) (rs : list hresp) : rout * str * list hresp * bool :=
   match fuel with
-  | O => (RErr, rs)                                           (* errUnauthorized *)
+  | O => (RErr, tok, rs, true)                                (* errUnauthorized *)
   | S f =>
       match do_request closure 0 rs with
-      | (None, rest) => (RErr, rest)
+      | (None, rest) => (RErr, tok, rest, true)
       | (Some r, rest) =>
+          let cf := eqb_str (h_req_tok r) tok in              (* the request carried [Authorization: Bearer tok] iff tok is set *)
           if h_status r =? 401 then
             match parse_challenge_gen g (h_auth r) with
-            | Panic => (RPanic, rest)
-            | Ok _ => if h_tok r then mrwr g closure f rest else (RErr, rest)
+            | Panic => (RPanic, tok, rest, cf)
+            | Ok c =>
+                match get_token ac c (h_tokreq r) with
+                | (None, ct) => (RErr, tok, rest, cf && ct)
+                | (Some t, ct) => let '(o, tok', rest', c') := mrwr g closure ac f t rest in (o, tok', rest', cf && ct && c')
+                end
             end
-          else if h_status r =? 404 then (RErr, rest)
-          else if 400 <=? h_status r then (RErr, rest)
-          else (ROk r, rest)
+          else if h_status r =? 404 then (RErr, tok, rest, cf)
+          else if 400 <=? h_status r then (RErr, tok, rest, cf)
+          else (ROk r, tok, rest, cf)
       end
   end.
 
-(** the [directURL] closure of run: retried with back-off until the 30 s context expires (= the list ends);
-    None = panic *)
-Fixpoint direct_url (g : bool) (fuel : nat) (rs : list hresp) : option bool :=
+(** the [directURL] closure of run: retried with back-off until the 30 s context expires (= the list ends); every try
+    starts from a copy of the options (the token a failed try obtained is not kept).  None = panic *)
+Fixpoint direct_url (g : bool) (ac : authcfg) (fuel : nat) (tok : str) (rs : list hresp) : option bool * bool :=
   match fuel with
-  | O => Some false
+  | O => (Some false, true)
   | S f =>
       match rs with
-      | [] => Some false
+      | [] => (Some false, true)
       | _ =>
-          match mrwr g true 2 rs with
-          | (RPanic, _) => None
-          | (RErr, rest) => direct_url g f rest
-          | (ROk r, _) =>
-              Some (((h_status r =? 307) || (h_status r =? 200)) && match h_redir r with Some _ => true | None => false end)
+          match mrwr g true ac 2 tok rs with
+          | (RPanic, _, _, c) => (None, c)
+          | (RErr, _, rest, c) => let '(o, c') := direct_url g ac f tok rest in (o, c && c')
+          | (ROk r, _, _, c) =>
+              (Some (((h_status r =? 307) || (h_status r =? 200)) && match h_redir r with Some _ => true | None => false end), c)
           end
       end
   end.
@@ -349,23 +380,46 @@ Record plog := mkPlog { pl_manifest : list hresp; pl_blobs : list (digest * blog
 Definition chunks_of (l : list (Z * list cresp)) : Z -> list (creq -> cresp) :=
   fun e => match lookup Z.eqb e l with Some rs => map (fun r _ => r) rs | None => [] end.
 
-Definition benv_of (g : bool) (b : blog) : option benv :=
-  match direct_url g (S (length (bl_get b))) (bl_get b) with
-  | None => None
-  | Some dir =>
-      match fst (mrwr g false 2 (bl_head b)) with
-      | RPanic => None
-      | RErr => Some (mkBenv None dir (chunks_of (bl_chunks b)))
-      | ROk r => Some (mkBenv (Some (h_cl r)) dir (chunks_of (bl_chunks b)))
+(** the requests of one downloadBlob call: HEAD in Prepare (shares regOpts with the rest of the pull), then the direct
+    URL in run.  None = a request panics.  Also: regOpts.Token afterwards, conformance. *)
+Definition benv_of (g : bool) (ac : authcfg) (tok : str) (b : blog) : option (benv * str * bool) :=
+  match mrwr g false ac 2 tok (bl_head b) with
+  | (RPanic, _, _, _) => None
+  | (ho, tok1, _, c1) =>
+      match direct_url g ac (S (length (bl_get b))) tok1 (bl_get b) with
+      | (None, _) => None
+      | (Some dir, c2) =>
+          Some (mkBenv (match ho with ROk r => Some (h_cl r) | _ => None end) dir (chunks_of (bl_chunks b)), tok1, c1 && c2)
       end
   end.
 
 (** None = some request of the pull panics (the pull goroutine is outside gin's recovery: the server dies) *)
-Definition manifest_of (g : bool) (rs : list hresp) : option (option manifest) :=
-  match fst (mrwr g false 2 rs) with
-  | RPanic => None
-  | RErr => Some None
-  | ROk r => Some (h_man r)
+Definition manifest_of (g : bool) (ac : authcfg) (rs : list hresp) : option (option manifest * str * bool) :=
+  match mrwr g false ac 2 [] rs with
+  | (RPanic, _, _, _) => None
+  | (RErr, tok, _, c) => Some (None, tok, c)
+  | (ROk r, tok, _, c) => Some (h_man r, tok, c)
+  end.
+
+(** the environments of the layers of a pull, in order, with regOpts.Token threaded through; a digest that occurs a
+    second time has no requests of its own (cache hit, or the pull ended at its first occurrence) *)
+Fixpoint benvs_of (g : bool) (ac : authcfg) (tok : str) (ls : list layer) (seen : list digest) (bl : list (digest * blog))
+  : list benv * bool :=
+  match ls with
+  | [] => ([], true)
+  | l :: ls' =>
+      let none := mkBenv None false (fun _ => []) in
+      if existsb (N.eqb (l_digest l)) seen then
+        let '(es, c) := benvs_of g ac tok ls' seen bl in (none :: es, c)
+      else
+        match lookup N.eqb (l_digest l) bl with
+        | None => let '(es, c) := benvs_of g ac tok ls' (l_digest l :: seen) bl in (none :: es, c)
+        | Some b =>
+            match benv_of g ac tok b with
+            | None => let '(es, c) := benvs_of g ac tok ls' (l_digest l :: seen) bl in (none :: es, false)
+            | Some (e, tok1, c1) => let '(es, c) := benvs_of g ac tok1 ls' (l_digest l :: seen) bl in (e :: es, c1 && c)
+            end
+        end
   end.
 
 (** ** a fault-free registry + CDN publishing [content d] for digest [d] *)
